@@ -4,6 +4,9 @@
 -/
 import PygModel.Slice
 import PygProofs.Lemmas.DfSliceLemmas
+import PygProofs.Lemmas.DfSliceNaLemmas
+import PygProofs.Lemmas.DfSliceBcastLemmas
+import PygProofs.Lemmas.DfSliceFrameLemmas
 
 namespace Pyg.Props.C13
 open Pyg Pyg.Slice
@@ -1107,6 +1110,522 @@ def okEq {α} [BEq α] (r : Res α) (x : α) : Bool := match r with | .ok y => y
     | Option.none => pure Option.none : Res (Option Frame))
   (some ⟨1, [(0, [some 1]), (2, [some 3]), (3, [some 4]), (4, [some 5])]⟩)
 
+/-! ### at most once / decreasing lists for the other spellings of the bounds -/
+
+/-- **stitch_once, every spelling**: after `normalise`, if the intervals are chained - the upper bound of piece `i` is at
+    most the lower bound of every later piece `j` - and the brackets are not closed on both sides, the stitched index is
+    strictly increasing: every timestamp is covered at most once, in order. -/
+theorem stitch_once_general (dfs : List TS) (lb ub : Option (List Int)) (oc : Option (List Char)) (n : Nat)
+    (l u : Bool) (hb : brackets oc = .ok (l, u)) (hlu : ¬ (l = true ∧ u = true)) (dfs' : List TS) (lbs ubs : List (Option Int))
+    (hnorm : normalise dfs lb ub = .ok (dfs', lbs, ubs)) (h1 : lbs.length = dfs'.length) (h2 : ubs.length = dfs'.length)
+    (htwo : 2 ≤ dfs'.length) (hs : ∀ s ∈ dfs', s.Sorted)
+    (hchain : ∀ i j (hi : i < ubs.length) (hj : j < lbs.length), i < j → ∃ a b, ubs[i] = some a ∧ lbs[j] = some b ∧ a ≤ b)
+    (F : Frame) (hF : stitch dfs lb ub oc n = .ok (some F)) :
+    F.rows.Pairwise (fun a b => a.1 < b.1) := by
+  have hpl := piecesG_length dfs' lbs ubs n l u h1 h2
+  have hfl := framesOf_length dfs' n
+  rw [stitch_general dfs lb ub oc n l u hb dfs' lbs ubs hnorm h1 h2, assemble_many _ (by omega)] at hF
+  cases hF
+  show List.Pairwise _ (List.flatMap _ _)
+  rw [List.pairwise_flatMap]
+  constructor
+  · intro f hf
+    obtain ⟨i, hi, rfl⟩ := List.mem_iff_getElem.mp hf
+    rw [piecesG_getElem dfs' lbs ubs n l u i hi (by omega) (by omega) (by omega)]
+    simp only [List.pairwise_map]
+    exact (framesOf_rows_sorted dfs' n hs _ (List.getElem_mem _)).sublist List.filter_sublist
+  · rw [List.pairwise_iff_getElem]
+    intro i j hi hj hij x hx y hy
+    rw [piecesG_getElem dfs' lbs ubs n l u i hi (by omega) (by omega) (by omega)] at hx
+    rw [piecesG_getElem dfs' lbs ubs n l u j hj (by omega) (by omega) (by omega)] at hy
+    simp only [List.mem_map, List.mem_filter, inWindow, Bool.and_eq_true] at hx hy
+    obtain ⟨rx, ⟨_, _, hxu⟩, rfl⟩ := hx
+    obtain ⟨ry, ⟨_, hyl, _⟩, rfl⟩ := hy
+    obtain ⟨a, b, ha, hb', hab⟩ := hchain i j (by omega) (by omega) hij
+    rw [ha] at hxu; rw [hb'] at hyl
+    have hxu' := (ubOk_iff u (.date a) rx.1).mp hxu
+    have hyl' := (lbOk_iff l (.date b) ry.1).mp hyl
+    show rx.1 < ry.1
+    cases l <;> cases u <;> simp at hxu' hyl' hlu <;> omega
+
+/-- **stitch_once, lower bounds only**: the intervals `(lb[i], lb[i+1]]` (the last one unbounded above) of a
+    non-decreasing list cover each timestamp at most once -/
+theorem stitch_once_lb (dfs : List TS) (lb : List Int) (hlen : dfs.length = lb.length) (htwo : 2 ≤ lb.length)
+    (hinc : nonDecreasing lb = true) (hs : ∀ s ∈ dfs, s.Sorted) (oc : Option (List Char)) (n : Nat) (l u : Bool)
+    (hb : brackets oc = .ok (l, u)) (hlu : ¬ (l = true ∧ u = true)) (F : Frame)
+    (hF : stitch dfs (some lb) Option.none oc n = .ok (some F)) : F.rows.Pairwise (fun a b => a.1 < b.1) := by
+  have hlb := nonDecreasing_pairwise lb hinc
+  refine stitch_once_general dfs (some lb) Option.none oc n l u hb hlu dfs (lb.map some) ((lb.drop 1).map some ++ [Option.none])
+    (normalise_lb_only dfs lb hinc) (by simp [hlen]) (by simp [hlen]; omega) (by omega) hs ?_ F hF
+  intro i j hi hj hij
+  simp only [List.length_map] at hj
+  have hi1 : i + 1 < lb.length := by omega
+  refine ⟨lb[i + 1], lb[j], ?_, by simp, ?_⟩
+  · rw [List.getElem_append_left (by simp; omega)]; simp
+  · by_cases he : i + 1 = j
+    · subst he; exact Int.le_refl _
+    · exact (List.pairwise_iff_getElem.mp hlb) (i + 1) j hi1 hj (by omega)
+
+/-- **stitch_once, both lists**: the intervals `(lb[i], ub[i]]` cover each timestamp at most once PROVIDED they are
+    chained, `ub[i] ≤ lb[i+1]` (lower bounds non-decreasing); without that they may overlap (`stitch_both_overlap`) -/
+theorem stitch_once_both (dfs : List TS) (lb ub : List Int) (hlen : dfs.length = ub.length) (hlen' : lb.length = ub.length)
+    (htwo : 2 ≤ ub.length) (hil : nonDecreasing lb = true) (hiu : nonDecreasing ub = true)
+    (hchain : ∀ i (h1 : i < ub.length) (h2 : i + 1 < lb.length), ub[i] ≤ lb[i + 1])
+    (hs : ∀ s ∈ dfs, s.Sorted) (oc : Option (List Char)) (n : Nat) (l u : Bool)
+    (hb : brackets oc = .ok (l, u)) (hlu : ¬ (l = true ∧ u = true)) (F : Frame)
+    (hF : stitch dfs (some lb) (some ub) oc n = .ok (some F)) : F.rows.Pairwise (fun a b => a.1 < b.1) := by
+  have hlb := nonDecreasing_pairwise lb hil
+  refine stitch_once_general dfs (some lb) (some ub) oc n l u hb hlu dfs (lb.map some) (ub.map some)
+    (normalise_both_lists dfs lb ub hil hiu) (by simp [hlen, hlen']) (by simp [hlen]) (by omega) hs ?_ F hF
+  intro i j hi hj hij
+  simp only [List.length_map] at hi hj
+  refine ⟨ub[i], lb[j], by simp, by simp, ?_⟩
+  have h1 := hchain i hi (by omega)
+  by_cases he : i + 1 = j
+  · subst he; exact h1
+  · have := (List.pairwise_iff_getElem.mp hlb) (i + 1) j (by omega) hj (by omega)
+    omega
+
+/-- ... and the chaining hypothesis is needed: with both lists the intervals `(0, 5]` and `(2, 9]` overlap, the
+    timestamp 3 is taken from both series -/
+theorem stitch_both_overlap :
+    stitch [[(3, some 1)], [(3, some 2)]] (some [0, 2]) (some [5, 9]) (some ['(', ']']) 1 =
+      .ok (some ⟨1, [(3, [some 1]), (3, [some 2])]⟩) := by rfl
+
+/-- decreasing lists, the other spellings: reversed together with the series they give the same frame -/
+theorem stitch_decreasing_lb (dfs : List TS) (lb : List Int) (oc : Option (List Char)) (n : Nat)
+    (h1 : nonDecreasing lb = false) (h2 : nonDecreasing lb.reverse = true) :
+    stitch dfs (some lb) Option.none oc n = stitch dfs.reverse (some lb.reverse) Option.none oc n := by
+  simp [stitch, normalise, h1, h2]
+
+theorem stitch_decreasing_both (dfs : List TS) (lb ub : List Int) (oc : Option (List Char)) (n : Nat)
+    (h1 : nonDecreasing lb = false) (h2 : nonDecreasing lb.reverse = true)
+    (h3 : nonDecreasing ub = false) (h4 : nonDecreasing ub.reverse = true) :
+    stitch dfs (some lb) (some ub) oc n = stitch dfs.reverse (some lb.reverse) (some ub.reverse) oc n := by
+  simp [stitch, normalise, h1, h2, h3, h4]
+
 theorem tod_range (t : Int) : 0 ≤ tod t ∧ tod t < DAY := ⟨tod_nonneg t, tod_lt t⟩
+
+/-! ### the NaN round trip, exactly -/
+
+/-- **stitch_nona**: stitching the series with their NaN rows dropped gives the stitched frame minus the rows that are NaN
+    in every column - same width, same order; every spelling of the bound lists, every `n`, parsable brackets -/
+theorem stitch_nona (dfs : List TS) (hs : ∀ s ∈ dfs, s.Sorted) (lb ub : Option (List Int)) (oc : Option (List Char))
+    (n : Nat) (l u : Bool) (hb : brackets oc = .ok (l, u)) :
+    stitch (dfs.map nona) lb ub oc n = (stitch dfs lb ub oc n).map (Option.map Frame.dropNaRows) :=
+  stitch_nona_eq dfs hs lb ub oc n l u hb
+
+/-- **unslice_restitch_exact** - the round trip for ANY values: `df_unslice` returns one series per bound, in bound order,
+    and stitching those again reproduces the frame up to its all-NaN rows: same width, the rows that hold a value in
+    some column, in the same order (`Frame.dropNaRows F = ⟨F.width, F.rows.filter live⟩`). -/
+theorem unslice_restitch_exact (dfs : List TS) (ub : List Int) (h : Stitchable dfs ub) (hstrict : ub.Pairwise (· < ·))
+    (hs : ∀ s ∈ dfs, s.Sorted) (n : Nat) :
+    ∃ F U, stitch dfs Option.none (some ub) (some ['(', ']']) n = .ok (some F) ∧ unslice F ub = .ok U ∧
+      U.map (·.1) = ub ∧
+      stitch (U.map (·.2)) Option.none (some ub) (some ['(', ']']) n = .ok (some F.dropNaRows) := by
+  obtain ⟨F, U, h1, h2, h3, h4⟩ := unslice_restitch_nan dfs ub h hstrict hs n
+  refine ⟨F, U, h1, h2, h3, ?_⟩
+  rw [h4, stitch_nona dfs hs _ _ _ n false true rfl, h1]
+  rfl
+
+/-- hence the round trip reproduces the frame EXACTLY when no row of it is NaN in every column (C13-N1 is the other case) -/
+theorem unslice_restitch_iff (dfs : List TS) (ub : List Int) (h : Stitchable dfs ub) (hstrict : ub.Pairwise (· < ·))
+    (hs : ∀ s ∈ dfs, s.Sorted) (n : Nat) :
+    ∃ F U, stitch dfs Option.none (some ub) (some ['(', ']']) n = .ok (some F) ∧ unslice F ub = .ok U ∧
+      (stitch (U.map (·.2)) Option.none (some ub) (some ['(', ']']) n = .ok (some F) ↔ ∀ r ∈ F.rows, live r = true) := by
+  obtain ⟨F, U, h1, h2, _, h4⟩ := unslice_restitch_exact dfs ub h hstrict hs n
+  refine ⟨F, U, h1, h2, ?_⟩
+  rw [h4]
+  cases F with
+  | mk w rows =>
+    simp only [Frame.dropNaRows, Except.ok.injEq, Option.some.injEq, Frame.mk.injEq, true_and, List.filter_eq_self]
+
+/-- a row survives iff some column holds a value -/
+theorem live_iff (r : Int × List (Option Int)) : live r = true ↔ ∃ v ∈ r.2, v ≠ Option.none := by
+  simp only [live, List.any_eq_true, Option.isSome_iff_ne_none]
+
+example : (⟨1, [(0, [some 1]), (1, [none]), (2, [some 3])]⟩ : Frame).dropNaRows = ⟨1, [(0, [some 1]), (2, [some 3])]⟩ := rfl
+
+/-! ### `zipper`'s broadcasting of length-1 bound lists -/
+
+/-- a lower-bound list of length 1 beside `m ≥ 2` upper bounds is the lower bound of every piece: the same frame as with
+    the bound written out `m` times -/
+theorem stitch_broadcast_lb (dfs : List TS) (a : Int) (ub : List Int) (hlen : dfs.length = ub.length) (htwo : 2 ≤ ub.length)
+    (oc : Option (List Char)) (n : Nat) :
+    stitch dfs (some [a]) (some ub) oc n = stitch dfs (some (List.replicate ub.length a)) (some ub) oc n := by
+  have hr := nonDecreasing_replicate ub.length a
+  have h1 : nonDecreasing [a] = true := rfl
+  unfold stitch
+  by_cases hu : nonDecreasing ub = true
+  · rw [normalise_both_lists dfs [a] ub h1 hu, normalise_both_lists dfs _ ub hr hu]
+    simp only [bind, Except.bind]
+    have hfl := framesOf_length dfs n
+    rw [zipper3_bcast _ _ _ ub.length (by omega) (Or.inl (by omega)) (Or.inr rfl) (Or.inl (by simp)) (Or.inl (by omega)),
+      zipper3_eq _ _ _ (by simp; omega) (by simp; omega)]
+    rw [bcast_self _ (framesOf dfs n) (by omega), bcast_self _ (ub.map some) (by simp; omega)]
+    simp only [List.map_cons, List.map_nil]
+    rw [bcast_one _ (by omega), List.map_replicate]
+  · rw [normalise_rejects_mixed dfs [a] ub (by simp [h1, hu]), normalise_rejects_mixed dfs _ ub (by simp [hr, hu])]
+
+/-- the same for an upper-bound list of length 1 beside `m ≥ 2` lower bounds -/
+theorem stitch_broadcast_ub (dfs : List TS) (lb : List Int) (b : Int) (hlen : dfs.length = lb.length) (htwo : 2 ≤ lb.length)
+    (oc : Option (List Char)) (n : Nat) :
+    stitch dfs (some lb) (some [b]) oc n = stitch dfs (some lb) (some (List.replicate lb.length b)) oc n := by
+  have hr := nonDecreasing_replicate lb.length b
+  have h1 : nonDecreasing [b] = true := rfl
+  unfold stitch
+  by_cases hu : nonDecreasing lb = true
+  · rw [normalise_both_lists dfs lb [b] hu h1, normalise_both_lists dfs lb _ hu hr]
+    simp only [bind, Except.bind]
+    have hfl := framesOf_length dfs n
+    rw [zipper3_bcast _ _ _ lb.length (by omega) (Or.inl (by omega)) (Or.inl (by simp)) (Or.inr rfl) (Or.inl (by omega)),
+      zipper3_eq _ _ _ (by simp; omega) (by simp; omega)]
+    rw [bcast_self _ (framesOf dfs n) (by omega), bcast_self _ (lb.map some) (by simp; omega)]
+    simp only [List.map_cons, List.map_nil]
+    rw [bcast_one _ (by omega), List.map_replicate]
+  · rw [normalise_rejects_mixed dfs lb [b] (by simp [h1, hu]), normalise_rejects_mixed dfs lb _ (by simp [hr, hu])]
+
+/-- so with one lower bound `a` for all pieces (default `n = 1`): a row `(t, v)` of series `i` appears exactly when
+    `a </≤ t` and `t </≤ ub[i]` -/
+theorem stitch_source_broadcast_lb (dfs : List TS) (a : Int) (ub : List Int) (hlen : dfs.length = ub.length) (htwo : 2 ≤ ub.length)
+    (hinc : nonDecreasing ub = true) (oc : Option (List Char)) (n : Nat) (hn : n ≤ 1) (l u : Bool) (hb : brackets oc = .ok (l, u))
+    (F : Frame) (hF : stitch dfs (some [a]) (some ub) oc n = .ok (some F)) (t : Int) (vs : List (Option Int)) :
+    (t, vs) ∈ F.rows ↔ ∃ i, ∃ hd : i < dfs.length, ∃ hu : i < ub.length, ∃ v,
+      (t, v) ∈ dfs[i] ∧ lbOk l (.date a) t = true ∧ ubOk u (.date ub[i]) t = true ∧ vs = padRow F.width [v] := by
+  rw [stitch_broadcast_lb dfs a ub hlen htwo] at hF
+  rw [stitch_source_general_series dfs _ _ oc n hn l u hb dfs _ _
+    (normalise_both_lists dfs _ ub (nonDecreasing_replicate _ a) hinc) (by simp [hlen]) (by simp [hlen]) (by omega) F hF t vs]
+  constructor
+  · rintro ⟨i, hd, hl, hu, v, h1, h2, h3, h4⟩
+    simp only [List.length_map] at hu
+    exact ⟨i, hd, hu, v, h1, by simpa [optDate] using h2, by simpa [optDate] using h3, h4⟩
+  · rintro ⟨i, hd, hu, v, h1, h2, h3, h4⟩
+    exact ⟨i, hd, by simp; omega, by simp; omega, v, h1, by simpa [optDate] using h2, by simpa [optDate] using h3, h4⟩
+
+/-- a list holding ONE series beside `m ≥ 2` upper bounds: the series is cut at every bound (and the pieces concatenated) -
+    the same frame as with the series written out `m` times (default `n = 1`) -/
+theorem stitch_broadcast_series (s : TS) (ub : List Int) (htwo : 2 ≤ ub.length) (oc : Option (List Char)) (n : Nat) (hn : n ≤ 1) :
+    stitch [s] Option.none (some ub) oc n = stitch (List.replicate ub.length s) Option.none (some ub) oc n := by
+  have hn' : ¬ n > 1 := by omega
+  have key : ∀ v : List Int, v.length = ub.length →
+      zipper3 (framesOf [s] n) (Option.none :: v.dropLast.map some) (v.map some) =
+        zipper3 (framesOf (List.replicate ub.length s) n) (Option.none :: v.dropLast.map some) (v.map some) := by
+    intro v hv
+    have hl1 : (Option.none :: v.dropLast.map some).length = ub.length := by simp; omega
+    simp only [framesOf, hn', if_false, List.map_cons, List.map_nil, List.map_replicate]
+    rw [zipper3_bcast _ _ _ ub.length (by omega) (Or.inr rfl) (Or.inl hl1) (Or.inl (by simp [hv])) (Or.inr (Or.inl hl1)),
+      zipper3_eq _ _ _ (by simp; omega) (by simp [hv])]
+    rw [bcast_one _ (by omega), bcast_self _ _ (by rw [hl1]; omega), bcast_self _ (v.map some) (by simp; omega)]
+  by_cases hu : nonDecreasing ub = true
+  · simp only [stitch, normalise, hu, if_true, bind, Except.bind, pure, Except.pure]
+    rw [key ub rfl]
+  · simp only [stitch, normalise, hu, Bool.false_eq_true, if_false, bind, Except.bind, pure, Except.pure, List.reverse_cons, List.reverse_nil,
+      List.nil_append, List.reverse_replicate]
+    rw [key ub.reverse (by simp)]
+
+/-- lists of two different lengths, neither of them 1, are rejected (`lens`: `ValueError`) - never zipped short -/
+theorem stitch_length_mismatch (dfs : List TS) (ub : List Int) (oc : Option (List Char)) (n : Nat)
+    (h1 : dfs.length ≠ 1) (h2 : ub.length ≠ 1) (h3 : dfs.length ≠ ub.length) :
+    stitch dfs Option.none (some ub) oc n = .error .value := by
+  have key : ∀ (d : List TS) (v : List Int), d.length = dfs.length → v.length = ub.length →
+      zipper3 (framesOf d n) (Option.none :: v.dropLast.map some) (v.map some) = .error .value := by
+    intro d v hd hv
+    unfold zipper3
+    rw [lens3_mismatch _ _ _ (Or.inr (Or.inl ⟨by rw [framesOf_length]; omega, by simp; omega, by rw [framesOf_length]; simp; omega⟩))]
+    rfl
+  by_cases hu : nonDecreasing ub = true
+  · simp only [stitch, normalise, hu, if_true, bind, Except.bind, pure, Except.pure]
+    rw [key dfs ub rfl rfl]
+  · simp only [stitch, normalise, hu, Bool.false_eq_true, if_false, bind, Except.bind, pure, Except.pure]
+    rw [key dfs.reverse ub.reverse (by simp) (by simp)]
+
+/-! ### lists holding DataFrames and scalars; bound lists of times of day -/
+
+/-- the window of one piece in plain terms: both bracket tests - or, for two times of day with the start later than the
+    end, either of them (the window wraps past midnight, under every bracket pair: repaired code, C13-W2) -/
+theorem inWindowW_iff (l u : Bool) (lb ub : Bound) (t : Int) :
+    inWindowW l u lb ub t = true ↔
+      if wraps lb ub = true then (lbOk l lb t = true ∨ ubOk u ub t = true) else (lbOk l lb t = true ∧ ubOk u ub t = true) := by
+  unfold inWindowW
+  split <;> simp
+
+theorem wraps_iff (lb ub : Bound) : wraps lb ub = true ↔ ∃ a b, lb = .time a ∧ ub = .time b ∧ b < a := by
+  unfold wraps
+  split
+  · rename_i a b; simp
+  · rename_i h
+    simp only [Bool.false_eq_true, false_iff]
+    rintro ⟨a, b, rfl, rfl, _⟩
+    exact h a b rfl rfl
+
+/-- a list of Series with date bounds is the special case: the general model IS the model all theorems on `stitch` speak about -/
+theorem stitch_frames_series (dfs : List TS) (lb ub : Option (List Int)) (oc : Option (List Char)) (n : Nat) :
+    stitchM (dfs.map Member.series) .date lb ub oc n = stitch dfs lb ub oc n := stitchM_series_eq dfs lb ub oc n
+
+/-- a scalar member is the constant series on the boundaries `sorted(set(lb + ub))` (line 1687) ... -/
+theorem scalar_member (v : Option Int) (bs : List Int) :
+    Member.toFrame .date bs (.scalar v) = .ok ⟨1, bs.map fun t => (t, [v])⟩ := rfl
+
+/-- ... which are the bounds that occur in either list, each once, in increasing order; beside times of day it is an error -/
+theorem boundaries_iff (lbs ubs : List (Option Int)) (t : Int) :
+    t ∈ boundariesOf lbs ubs ↔ some t ∈ lbs ∨ some t ∈ ubs := mem_boundariesOf
+
+theorem boundaries_increasing (lbs ubs : List (Option Int)) : (boundariesOf lbs ubs).Pairwise (· < ·) := boundariesOf_sorted lbs ubs
+
+theorem scalar_member_tod (v : Option Int) (bs : List Int) : Member.toFrame .time bs (.scalar v) = .error .other := rfl
+
+/-- **stitch_source_frames** (`n > 1`): for a list of Series / DataFrames / scalars (`fs` = the members as frames, scalars
+    made constant series) and bound lists of either kind, a row `(t, vs)` is in the stitched frame exactly when for some piece
+    `i` the timestamp passes the window of piece `i` and is a timestamp of one of the members `i .. i+n-1`; the row then
+    holds the rows of those members at `t` side by side (NaN for a member without `t`), padded with NaN -/
+theorem stitch_source_frames (ms : List Member) (k : BKind) (lb ub : Option (List Int)) (oc : Option (List Char)) (n : Nat)
+    (hn : 1 < n) (l u : Bool) (hb : brackets oc = .ok (l, u)) (ms' : List Member) (lbs ubs : List (Option Int))
+    (hnorm : normalise ms lb ub = .ok (ms', lbs, ubs)) (fs : List Frame)
+    (hfs : ms'.mapM (Member.toFrame k (boundariesOf lbs ubs)) = .ok fs)
+    (h1 : lbs.length = fs.length) (h2 : ubs.length = fs.length) (htwo : 2 ≤ fs.length)
+    (F : Frame) (hF : stitchM ms k lb ub oc n = .ok (some F)) (t : Int) (vs : List (Option Int)) :
+    (t, vs) ∈ F.rows ↔ ∃ i, ∃ hl : i < lbs.length, ∃ hu : i < ubs.length,
+      (∃ f ∈ (fs.drop i).take n, t ∈ f.index) ∧
+      inWindowW l u (k.bound lbs[i]) (k.bound ubs[i]) t = true ∧
+      vs = padRow F.width (((fs.drop i).take n).flatMap (rowAt · t)) := by
+  have hpl := piecesM_length fs k lbs ubs n l u h1 h2
+  have hfl := framesOfF_length fs n
+  rw [stitchM_eq ms k lb ub oc n l u hb ms' lbs ubs hnorm fs hfs h1 h2 (framesOfF_sorted_cols fs n hn),
+    assemble_many _ (by omega)] at hF
+  cases hF
+  simp only [List.mem_flatMap, List.mem_map, Prod.mk.injEq]
+  constructor
+  · rintro ⟨f, hf, r, hr, rfl, rfl⟩
+    obtain ⟨i, hi, rfl⟩ := List.mem_iff_getElem.mp hf
+    rw [piecesM_getElem fs k lbs ubs n l u i hi (by omega) (by omega) (by omega),
+      framesOfF_getElem_cols fs n hn i (by omega)] at hr
+    simp only [List.mem_filter] at hr
+    obtain ⟨hmem, hw⟩ := hr
+    obtain ⟨hex, hval⟩ := mem_concatFrames.mp hmem
+    exact ⟨i, by omega, by omega, hex, hw, by rw [hval]⟩
+  · rintro ⟨i, hl, hu, hex, hw, rfl⟩
+    have hi : i < (piecesM fs k lbs ubs n l u).length := by omega
+    refine ⟨(piecesM fs k lbs ubs n l u)[i], List.getElem_mem hi, (t, ((fs.drop i).take n).flatMap (rowAt · t)), ?_, rfl, rfl⟩
+    rw [piecesM_getElem fs k lbs ubs n l u i hi (by omega) hl hu, framesOfF_getElem_cols fs n hn i (by omega)]
+    simp only [List.mem_filter]
+    exact ⟨mem_concatFrames.mpr ⟨hex, rfl⟩, hw⟩
+
+/-- the default `n = 1`: a row `(t, r)` of member `i` appears exactly when `t` passes the window of piece `i`
+    (members with strictly increasing indexes - needed where a time-of-day window wraps: `sort_index`) -/
+theorem stitch_source_frames_one (ms : List Member) (k : BKind) (lb ub : Option (List Int)) (oc : Option (List Char)) (n : Nat)
+    (hn : n ≤ 1) (l u : Bool) (hb : brackets oc = .ok (l, u)) (ms' : List Member) (lbs ubs : List (Option Int))
+    (hnorm : normalise ms lb ub = .ok (ms', lbs, ubs)) (fs : List Frame)
+    (hfs : ms'.mapM (Member.toFrame k (boundariesOf lbs ubs)) = .ok fs) (hs : ∀ f ∈ fs, SortedRows f)
+    (h1 : lbs.length = fs.length) (h2 : ubs.length = fs.length) (htwo : 2 ≤ fs.length)
+    (F : Frame) (hF : stitchM ms k lb ub oc n = .ok (some F)) (t : Int) (vs : List (Option Int)) :
+    (t, vs) ∈ F.rows ↔ ∃ i, ∃ hd : i < fs.length, ∃ hl : i < lbs.length, ∃ hu : i < ubs.length, ∃ r,
+      (t, r) ∈ fs[i].rows ∧ inWindowW l u (k.bound lbs[i]) (k.bound ubs[i]) t = true ∧ vs = padRow F.width r := by
+  have hpl := piecesM_length fs k lbs ubs n l u h1 h2
+  have hfl := framesOfF_length fs n
+  rw [stitchM_eq ms k lb ub oc n l u hb ms' lbs ubs hnorm fs hfs h1 h2 (framesOfF_sorted fs n hs),
+    assemble_many _ (by omega)] at hF
+  cases hF
+  simp only [List.mem_flatMap, List.mem_map, Prod.mk.injEq]
+  constructor
+  · rintro ⟨f, hf, r, hr, rfl, rfl⟩
+    obtain ⟨i, hi, rfl⟩ := List.mem_iff_getElem.mp hf
+    rw [piecesM_getElem fs k lbs ubs n l u i hi (by omega) (by omega) (by omega),
+      framesOfF_getElem_one fs n hn i (by omega) (by omega)] at hr
+    simp only [List.mem_filter] at hr
+    exact ⟨i, by omega, by omega, by omega, r.2, hr.1, hr.2, rfl⟩
+  · rintro ⟨i, hd, hl, hu, r, hr, hw, rfl⟩
+    have hi : i < (piecesM fs k lbs ubs n l u).length := by omega
+    refine ⟨(piecesM fs k lbs ubs n l u)[i], List.getElem_mem hi, (t, r), ?_, rfl, rfl⟩
+    rw [piecesM_getElem fs k lbs ubs n l u i hi (by omega) hl hu, framesOfF_getElem_one fs n hn i (by omega) hd]
+    simp only [List.mem_filter]
+    exact ⟨hr, hw⟩
+
+/-- dates in one bound list and times of day in the other: `TypeError` (after the direction checks) -/
+theorem stitch_mixed_kinds (ms : List Member) (l1 l2 : List Int) (oc : Option (List Char)) (n : Nat)
+    (h1 : l1 ≠ []) (h2 : l2 ≠ []) (hd : nonDecreasing l2 = nonDecreasing l1) :
+    stitchB ms (some (.date, l1)) (some (.time, l2)) oc n = .error .type := by
+  cases l1 with
+  | nil => exact absurd rfl h1
+  | cons a l1 =>
+    cases l2 with
+    | nil => exact absurd rfl h2
+    | cons b l2 =>
+      simp only [stitchB, Option.map_some, normalise, hd, bne_self_eq_false, Bool.false_eq_true, if_false]
+      split <;> rfl
+
+/-! evaluation tests (`mergeSort` does not reduce in the kernel): a Series, a two-column DataFrame and a scalar; a time-of-day
+    list whose second window 18:00 -> 06:00 wraps under the default `'(]'` -/
+#guard okEq (stitchM [.series [(0, some 1), (5, some 2)], .frame ⟨2, [(3, [some 7, none]), (6, [some 8, some 9])]⟩, .scalar (some 4)]
+    .date Option.none (some [2, 5, 9]) (some ['(', ']']) 1)
+  (some ⟨2, [(0, [some 1, none]), (3, [some 7, none]), (9, [some 4, none])]⟩)
+#guard okEq (stitchM [.series [(0, some 1), (5, some 2)], .frame ⟨2, [(3, [some 7, none]), (5, [some 8, some 9])]⟩]
+    .date Option.none (some [4, 9]) (some ['(', ']']) 2)
+  (some ⟨3, [(0, [some 1, none, none]), (3, [none, some 7, none]), (5, [some 8, some 9, none])]⟩)
+#guard okEq (stitchM [.series [(0, some 1), (6 * 3600000000, some 2)], .series [(0, some 10), (6 * 3600000000, some 20), (12 * 3600000000, some 30), (18 * 3600000000, some 40)]]
+    .time (some [0, 18 * 3600000000]) (some [6 * 3600000000, 6 * 3600000000]) (some ['(', ']']) 1)
+  (some ⟨1, [(6 * 3600000000, [some 2]), (0, [some 10]), (6 * 3600000000, [some 20])]⟩)
+
+/-! ### ONE series with bound lists -/
+
+/-- a single (non-list) series with a LIST of upper bounds and one lower bound `b0` (possibly `None`): `zipper` repeats the
+    series and the lower bound, the result is a python list holding, for every upper bound, the slice `(b0, ub[i]]` -/
+theorem slices_ub_list {α} (df : Rows α) (b0 : Bound) (bs : List Bound) (htwo : 2 ≤ bs.length) (oc : Option (List Char))
+    (l u : Bool) (hb : brackets oc = .ok (l, u))
+    (hs : ∀ b ∈ bs, wraps b0 b = true → df.Pairwise (fun x y => x.1 < y.1)) :
+    slicesOfSeries df (.one b0) (.list bs) oc = .ok (.many (bs.map fun b => df.filter fun r => inWindowW l u b0 b r.1)) := by
+  unfold slicesOfSeries
+  show (do let dlu ← zipper3 [df] [b0] bs; _) = _
+  rw [zipper3_single_left df b0 bs htwo]
+  simp only [bind, Except.bind]
+  rw [mapM_sliceWrap_eq df oc l u hb _ (by intro x hx; simp only [List.mem_map] at hx; obtain ⟨_, _, rfl⟩ := hx; rfl)
+    (by intro x hx; simp only [List.mem_map] at hx; obtain ⟨b, hb', rfl⟩ := hx; exact hs b hb')]
+  simp only [List.map_map, Function.comp_def]
+  match bs, htwo with
+  | _ :: _ :: _, _ => rfl
+
+/-- these slices are NESTED, not a partition: with date bounds `b ≤ b'` the slice up to `b` is contained in the slice up to `b'` -/
+theorem slices_nested {α} (df : Rows α) (l u : Bool) (b0 : Bound) (b b' : Int) (hbb : b ≤ b') :
+    (df.filter fun r => inWindowW l u b0 (.date b) r.1).Sublist (df.filter fun r => inWindowW l u b0 (.date b') r.1) := by
+  have hw : ∀ c, wraps b0 (.date c) = false := by intro c; cases b0 <;> rfl
+  have : (df.filter fun r => inWindowW l u b0 (.date b) r.1) =
+      (df.filter fun r => inWindowW l u b0 (.date b') r.1).filter fun r => inWindowW l u b0 (.date b) r.1 := by
+    rw [List.filter_filter]
+    apply List.filter_congr
+    intro x _
+    simp only [inWindowW, hw, Bool.false_eq_true, if_false]
+    cases h1 : lbOk l b0 x.1 <;> cases u <;> simp [ubOk] <;> omega
+  rw [this]
+  exact List.filter_sublist
+
+/-- the witness: `df_slice(ts, ub = [2, 5])` on the index `0, 3` hands back `[rows ≤ 2, rows ≤ 5]` - the row at `0` is in both
+    slices (so "the pieces partition the rows" is FALSE of a single series with an upper-bound list; it holds when both
+    bounds are lists and chained, `slices_chained_partition`) -/
+theorem slices_not_partition :
+    slicesOfSeries [((0 : Int), 'a'), (3, 'b')] (.one .none) (.list [.date 2, .date 5]) (some ['(', ']']) =
+      .ok (.many [[(0, 'a')], [(0, 'a'), (3, 'b')]]) := by rfl
+
+/-- with BOTH bounds given as lists of the same length the slices `(lb[i], ub[i]]` are concatenated (line 1699) -/
+theorem slices_both_lists {α} (df : Rows α) (as bs : List Bound) (hlen : as.length = bs.length) (htwo : 2 ≤ bs.length)
+    (oc : Option (List Char)) (l u : Bool) (hb : brackets oc = .ok (l, u))
+    (hs : ∀ x ∈ as.zip bs, wraps x.1 x.2 = true → df.Pairwise (fun x y => x.1 < y.1)) :
+    slicesOfSeries df (.list as) (.list bs) oc =
+      .ok (.one ((as.zip bs).flatMap fun x => df.filter fun r => inWindowW l u x.1 x.2 r.1)) := by
+  unfold slicesOfSeries
+  show (do let dlu ← zipper3 [df] as bs; _) = _
+  rw [zipper3_single_both df as bs hlen htwo]
+  simp only [bind, Except.bind]
+  rw [mapM_sliceWrap_eq df oc l u hb _ (by intro x hx; simp only [List.mem_map] at hx; obtain ⟨_, _, rfl⟩ := hx; rfl)
+    (by intro x hx; simp only [List.mem_map] at hx; obtain ⟨y, hy, rfl⟩ := hx; exact hs y hy)]
+  simp only [List.map_map, Function.comp_def]
+  have h2 : 2 ≤ (as.zip bs).length := by simp [hlen]; omega
+  generalize as.zip bs = L at h2
+  match L, h2 with
+  | _ :: _ :: _, _ => rfl
+
+/-- the chain of windows `(b0, ub[0]], (ub[0], ub[1]], ...` of a non-decreasing list partitions `(b0, last ub]`
+    (brackets open on one side and closed on the other; non-decreasing index) -/
+theorem chain_concat {α} (df : Rows α) (hs : (df.map (·.1)).Pairwise (· ≤ ·)) (l u : Bool) (hlu : l = !u) :
+    ∀ (ub : List Int) (b0 : Option Int) (hne : ub ≠ []), ub.Pairwise (· ≤ ·) → (∀ a, b0 = some a → a ≤ ub.head hne) →
+      (((optDate b0 :: ub.dropLast.map Bound.date).zip (ub.map Bound.date)).flatMap fun x =>
+        df.filter fun r => inWindow l u x.1 x.2 r.1) =
+      df.filter fun r => inWindow l u (optDate b0) (.date (ub.getLast hne)) r.1
+  | [b], b0, _, _, _ => by simp
+  | b :: c :: rest, b0, _, hp, h0 => by
+    have hp' := List.pairwise_cons.mp hp
+    have ih := chain_concat df hs l u hlu (c :: rest) (some b) (by simp) hp'.2 (by intro a ha; cases ha; exact hp'.1 c (by simp))
+    have hlast : b ≤ (c :: rest).getLast (by simp) := hp'.1 _ (List.getLast_mem _)
+    simp only [List.dropLast_cons_cons, List.map_cons, List.zip_cons_cons, List.flatMap_cons, List.getLast_cons_cons]
+    simp only [List.map_cons, optDate, List.zip_cons_cons, List.flatMap_cons] at ih
+    rw [ih, filter_append_ordered _ _ ?_ df hs]
+    · apply List.filter_congr
+      intro x _
+      have h0' := h0
+      subst hlu
+      cases b0 with
+      | none => rw [Bool.eq_iff_iff]; cases u <;> simp [inWindow, lbOk, ubOk, optDate] <;> omega
+      | some a =>
+        have := h0' a rfl
+        simp only [List.head_cons] at this
+        rw [Bool.eq_iff_iff]; cases u <;> simp [inWindow, lbOk, ubOk, optDate] <;> omega
+    · intro x y hx hy
+      subst hlu
+      cases u <;> simp [inWindow, lbOk, ubOk] at hx hy <;> omega
+
+/-- **slices_chained_partition**: a single series cut with both bounds as lists, the lower bounds being `b0` followed by the
+    upper bounds shifted by one (non-decreasing dates): the pieces `(b0, ub[0]], (ub[0], ub[1]], ...` partition the rows in
+    `(b0, last ub]` - their concatenation, which is what `df_slice` returns, is exactly that one slice -/
+theorem slices_chained_partition {α} (df : Rows α) (hs : (df.map (·.1)).Pairwise (· ≤ ·)) (b0 : Option Int) (ub : List Int)
+    (htwo : 2 ≤ ub.length) (hinc : nonDecreasing ub = true) (hne : ub ≠ []) (h0 : ∀ a, b0 = some a → a ≤ ub.head hne)
+    (oc : Option (List Char)) (l u : Bool) (hb : brackets oc = .ok (l, u)) (hlu : l = !u) :
+    slicesOfSeries df (.list (optDate b0 :: ub.dropLast.map Bound.date)) (.list (ub.map Bound.date)) oc =
+      .ok (.one (df.filter fun r => inWindow l u (optDate b0) (.date (ub.getLast hne)) r.1)) := by
+  have hnw : ∀ x ∈ (optDate b0 :: ub.dropLast.map Bound.date).zip (ub.map Bound.date), wraps x.1 x.2 = false := by
+    intro x hx
+    have := (List.of_mem_zip hx).2
+    simp only [List.mem_map] at this
+    obtain ⟨c, _, hc⟩ := this
+    unfold wraps
+    rw [← hc]
+    split
+    · rename_i h2; cases h2
+    · rfl
+  rw [slices_both_lists df _ _ (by simp; omega) (by simpa using htwo) oc l u hb (by intro x hx hw; rw [hnw x hx] at hw; cases hw)]
+  congr 2
+  rw [← chain_concat df hs l u hlu ub b0 hne (nonDecreasing_pairwise ub hinc) h0]
+  apply flatMap_congr_mem
+  intro x hx
+  apply List.filter_congr
+  intro r _
+  simp only [inWindowW, hnw x hx, Bool.false_eq_true, if_false, inWindow]
+
+example : slicesOfSeries [((0 : Int), 'a'), (3, 'b'), (5, 'c'), (7, 'd')] (.list [.none, .date 2]) (.list [.date 2, .date 5]) (some ['(', ']']) =
+    .ok (.one [(0, 'a'), (3, 'b'), (5, 'c')]) := by rfl
+
+/-! ### the hypotheses of the theorems above are satisfiable (non-trivial values) -/
+
+/-- `stitch_once_lb`: lower bounds `[0, 4]`, two proper series - the stitched index is strictly increasing -/
+example : ∃ F, stitch [[(0, some 1), (5, some 2)], [(1, some 7), (9, some 3)]] (some [0, 4]) Option.none (some ['(', ']']) 1 = .ok (some F) ∧
+    F.rows.Pairwise (fun a b => a.1 < b.1) :=
+  ⟨_, rfl, stitch_once_lb [[(0, some 1), (5, some 2)], [(1, some 7), (9, some 3)]] [0, 4] rfl (by decide) rfl (by decide)
+    (some ['(', ']']) 1 false true rfl (by simp) _ rfl⟩
+
+/-- `stitch_once_both`: the chained lists `lb = [0, 5]`, `ub = [5, 9]` -/
+example : ∀ i (h1 : i < ([5, 9] : List Int).length) (h2 : i + 1 < ([0, 5] : List Int).length),
+    ([5, 9] : List Int)[i] ≤ ([0, 5] : List Int)[i + 1] := by
+  intro i h1 h2
+  have : i = 0 := by simp at h2; omega
+  subst this
+  simp
+
+/-- `stitch_broadcast_lb` / `stitch_source_broadcast_lb`: one lower bound `1` for both pieces -/
+example : stitch [[(0, some 1), (2, some 2)], [(1, some 7), (2, some 8), (9, some 3)]] (some [1]) (some [3, 9]) (some ['(', ']']) 1 =
+    .ok (some ⟨1, [(2, [some 2]), (2, [some 8]), (9, [some 3])]⟩) := by
+  rw [stitch_broadcast_lb _ 1 [3, 9] rfl (by decide)]; rfl
+
+/-- `stitch_broadcast_series`: one series cut at three bounds comes back whole up to the last bound -/
+example : stitch [[(0, some 1), (2, some 2), (7, some 3)]] Option.none (some [1, 2, 5]) (some ['(', ']']) 1 =
+    .ok (some ⟨1, [(0, [some 1]), (2, [some 2])]⟩) := by
+  rw [stitch_broadcast_series _ [1, 2, 5] (by decide) _ 1 (by decide)]; rfl
+
+/-- `stitch_length_mismatch`: three series, two bounds -/
+example : stitch [[], [], []] Option.none (some [1, 2]) (some ['(', ']']) 1 = .error .value :=
+  stitch_length_mismatch _ _ _ _ (by decide) (by decide) (by decide)
+
+/-- `stitch_source_frames`: the hypotheses on a Series, a DataFrame and a scalar -/
+example : normalise [Member.series [(0, some 1)], .frame ⟨2, [(3, [some 7, none])]⟩, .scalar (some 4)] Option.none (some [2, 5, 9]) =
+    .ok ([Member.series [(0, some 1)], .frame ⟨2, [(3, [some 7, none])]⟩, .scalar (some 4)],
+      [Option.none, some 2, some 5], [some 2, some 5, some 9]) := rfl
+
+#guard (boundariesOf [Option.none, some 2, some 5] [some 2, some 5, some 9]) == [2, 5, 9]
+
+/-! `unslice_restitch_exact` on the C13-N1 witness: the re-stitched frame is the frame without its all-NaN row -/
+#guard okEq (do
+    let f ← stitch nanSeries Option.none (some [2, 5]) (some ['(', ']']) 1
+    match f with
+    | some f => do
+        let u ← unslice f [2, 5]
+        let g ← stitch (u.map (·.2)) Option.none (some [2, 5]) (some ['(', ']']) 1
+        pure (g == some f.dropNaRows && f.dropNaRows != f)
+    | Option.none => pure false : Res Bool) true
 
 end Pyg.Props.C13
